@@ -55,3 +55,12 @@ CASES += [
     dict(id='c14-level-filter-back-in-exists-branch', prop='C14', file='src/library/log/filter/filters.cpp', expect='R6',
          old="         if (detail::IFilter::isLevelFilter( filter_type))\n            mpLevelFilter = it;", new="         if (detail::IFilter::isLevelFilter( filter_type))\n            mpLevelFilter = mFilters.back();"),
 ]
+
+CASES += [
+    dict(id='c14-level-filter-compares-member-with-itself', prop='C14', file='src/celma/log/filter/detail/log_filter_level.hpp', expect='R*',
+         old="   return msg.getLevel() == mLevel;", new="   return mLevel == mLevel;"),
+    dict(id='c14-max-level-pass-ignores-message', prop='C14', file='src/celma/log/filter/detail/log_filter_max_level.hpp', expect='R*',
+         old="   return processLevel( msg.getLevel());", new="   return processLevel( mMaxLevel);"),
+    dict(id='c14-min-level-compares-param-with-itself', prop='C14', file='src/celma/log/filter/detail/log_filter_min_level.hpp', expect='R*',
+         old="   return l >= mMinLevel;", new="   return l >= l;"),
+]
